@@ -10,6 +10,7 @@ import json, math, os, re, sys
 import vf
 
 AREA = "C03"
+PROP_FILES = ("Properties.v", "Properties3.v", "Properties4.v")
 ITY = {"i8": (8, 1), "u8": (8, 0), "i16": (16, 1), "u16": (16, 0), "i32": (32, 1), "u32": (32, 0),
        "i64": (64, 1), "u64": (64, 0), "i128": (128, 1), "u128": (128, 0)}
 INT_RINGS = [s + "_" + c for s, cs in [("i8", ["i8", "u8", "i16", "u16"]), ("u8", ["i8", "u8", "i16", "u16"]),
@@ -197,7 +198,7 @@ def model_line(ring, p, op, a, exbr=None):
     ModularBalanced::neg is the repaired body of /repo (edb1d16: r = -a; if (r < _mhalfp) r += _p): model ops negn / maxpyn."""
     op = op.split(":")[0]                 # the alias pattern does not exist in the model (no object identity)
     args = " ".join(str(x) for x in a)
-    if op == "consts" or (op in ("mulpb2", "gcdext") and ring not in INT_RINGS):
+    if op in ("mulpb2", "gcdext") and ring not in INT_RINGS:
         return None
     if ring in INT_RINGS:
         s, c = ring.split("_")
@@ -207,12 +208,8 @@ def model_line(ring, p, op, a, exbr=None):
     if ring in FM_PREC:
         return "fm %d %d %d %s %s" % (FM_PREC[ring][0], FM_PREC[ring][1], p, op, args)
     if ring in BF_PREC:
-        if op in ("neg", "negin"):
-            op = "negn"
         return "bf %d %d %s %s" % (BF_PREC[ring], p, op, args)
     if ring in BI_BITS:
-        if op in BAL_NEG_OPS:
-            op = "negn" if op in ("neg", "negin") else "maxpyn"
         return "bi %d %d %s %s" % (BI_BITS[ring], p, op, args)
     if ring in EX_PREC:
         if exbr is None:          # branches of this configuration could not be matched to the models (recorded as inconclusive)
@@ -1103,8 +1100,10 @@ def main(tier, replay=None):
         "Coq 8.16.1 kernel + vm_compute (no native_compute); all theorems closed under the global context",
         "extraction: ExtrOcamlBasic only; Z/positive/nat kept as extracted inductives; OCaml 4.13.1; zarith only for text I/O",
         "Model.v's C integer semantics (LP64, int = 32 bit, integer promotion, two's-complement conversions, signed overflow as wrap) "
-        "and ModelF.v/ModelDK.v's float layer (round to nearest even to 24/53 bits on integers/dyadics, exponent range not modelled, "
-        "no FP contraction, no x87 excess precision); validated by the correspondence run in every compile configuration",
+        "and ModelF.v/ModelDK.v/ModelIn.v's float layer (round to nearest even to 24/53 bits on integers/dyadics, exponent range not "
+        "modelled, no x87 excess precision); validated by the correspondence run in every compile configuration.  FP contraction: the "
+        "extracted models evaluate a*x+y with two roundings; the native/debug binaries fuse it (recorded per configuration under "
+        "'configurations'); both evaluations are proved to return the same canonical element (ProofsFused.v) and both are driven",
         "Log16, rint<7> and the RecInt/GMP based inverses of the big rings are oracle-tested, not modelled (see level_claimed)",
         "harness/c03_modular.C, checks/C03.py (case generator, python big-integer oracle, preprocessor-conditional scanner)",
         "g++ / x86-64 for the implementation side: the configurations listed under 'configurations' are the ones this compiler "
@@ -1213,14 +1212,28 @@ def main(tier, replay=None):
         floor_missed.append("C03_extended_split_constants_as_in_source re-checked against the previous constants, not the source")
     # 1. proofs
     _t0 = _t.time()
-    res = vf.coq_check_props(AREA)
-    coq_timeout = (not res.get("ok")) and "[timeout after" in (res.get("log") or "") and not res.get("forbidden")
-    if coq_timeout:
-        # coqc/make did not finish within its time limit: tooling, not a broken proof
-        inconclusive.append("the Coq build of coq/C03 did not finish within its time limit (machine load): theorems NOT re-checked in this run")
-        floor_missed.append("theorems re-checked: 0 of %d" % len(res.get("theorems") or []))
-    else:
-        chk.proof_result(res, AREA)
+    # build once, then re-check the three property files concurrently (their internal `make` is then a no-op)
+    okb, logb = vf.coq_make(AREA, timeout=2400)
+    results = {}
+
+    def recheck(pf):
+        results[pf] = vf.coq_check_props(AREA, propfile=pf, timeout=2400)
+    import threading as _th
+    ths = [_th.Thread(target=recheck, args=(pf,)) for pf in PROP_FILES]
+    for t in ths:
+        t.start()
+    for t in ths:
+        t.join()
+    for pf in PROP_FILES:
+        res = results[pf]
+        coq_timeout = (not res.get("ok")) and ("[timeout after" in (res.get("log") or "") or "[timeout after" in logb) and not res.get("forbidden")
+        if coq_timeout:
+            # coqc/make did not finish within its time limit: tooling, not a broken proof
+            inconclusive.append("the Coq build / re-check of coq/C03 (%s) did not finish within its time limit (machine load): "
+                                "its theorems were NOT re-checked in this run" % pf)
+            floor_missed.append("theorems re-checked in %s: 0 of %d" % (pf, len(res.get("theorems") or [])))
+        else:
+            chk.proof_result(res, AREA, pf)
     chk.cov.setdefault("phase_seconds", {})["coq"] = round(_t.time() - _t0, 1); _t0 = _t.time()
     # 2. model driver
     drv, l1 = vf.ocaml_build(AREA) if os.path.exists(os.path.join(vf.coq_dir(AREA), "ocaml", "model.ml")) else (None, "extraction did not run")
